@@ -634,6 +634,27 @@ namespace
         }
     };
 
+    // ---------- reduce (C11): combiners and a probe that reads the result whenever the result or the collection ticks ----------
+    struct VCombAdd
+    {
+        static constexpr auto name = "v_comb_add";
+        static void           eval(In<"lhs", TS<Int>> lhs, In<"rhs", TS<Int>> rhs, Out<TS<Int>> out) { out.set(lhs.value() + rhs.value()); }
+    };
+    struct CombAddG
+    {
+        static constexpr auto name = "hgv_comb_add_g";
+        static Port<TS<Int>>  compose(Wiring &w, Port<TS<Int>> lhs, Port<TS<Int>> rhs) { return wire<VCombAdd>(w, lhs, rhs); }
+    };
+    struct VRRec
+    {
+        static constexpr auto name = "v_rrec";
+        static void           eval(Scalar<"id", Int> id, In<"r", TS<Int>, InputValidity::Unchecked> r, In<"d", DInt, InputValidity::Unchecked> d,
+                                    NodeView self, DateTime now)
+        {
+            J("rrec").i("id", id.value()).i("t", to_k(now)).i("ok", r.valid() ? 1 : 0).i("v", r.valid() ? static_cast<long>(r.value()) : 0).i("rm", r.modified() ? 1 : 0).i("dm", d.modified() ? 1 : 0).emit();
+        }
+    };
+
     using TryIntResult = UnNamedTSB<Field<"exception", TS<NodeError>>, Field<"out", TS<Int>>>;
 
     struct VTryOut
@@ -804,7 +825,7 @@ namespace
             const std::string kind = l.pos.at(2);
             NodeSpec         &sp   = spec_of(id);
             std::vector<P>    in;
-            if (kind != "drec" && kind != "map" && kind != "reduce" && kind != "dmerge")
+            if (kind != "drec" && kind != "map" && kind != "reduce" && kind != "rrec")
             {
                 for (auto &r : sp.ins) { in.push_back(resolve(env, r)); }
             }
@@ -864,6 +885,17 @@ namespace
                 if (two) { env.ports.emplace(id, wire<stdlib::switch_>(w, in.at(0), cases, in.at(1), in.at(2)).as<TS<Int>>()); }
                 else { env.ports.emplace(id, wire<stdlib::switch_>(w, in.at(0), cases, in.at(1)).as<TS<Int>>()); }
             }
+            else if (kind == "reduce")
+            {
+                // in=<dict>  comb=add|min|max|gadd|nadd  [zero=<v>]
+                auto              d    = env.dports.at(std::stol(sp.ins.at(0)));
+                const std::string comb = l.gets("comb", "add");
+                WiredFn           f    = comb == "min" ? fn<stdlib::min_>() : comb == "max" ? fn<stdlib::max_>() : comb == "gadd" ? fn<CombAddG>()
+                                         : comb == "nadd" ? fn<VCombAdd>() : fn<stdlib::add_>();
+                if (l.has("zero")) { env.ports.emplace(id, wire<stdlib::reduce_>(w, f, d, Int{l.geti("zero")}).as<TS<Int>>()); }
+                else { env.ports.emplace(id, wire<stdlib::reduce_>(w, f, d).as<TS<Int>>()); }
+            }
+            else if (kind == "rrec") { wire<VRRec>(w, sid, resolve(env, sp.ins.at(0)), env.dports.at(std::stol(sp.ins.at(1)))); }
             else if (kind == "sched") { wire<VSched>(w, sid, in.at(0)); }
             else if (kind == "lsrc") { env.ports.emplace(id, wire<LSrc>(w, sid, Int{l.geti("cnt", 2)})); }
             else if (kind == "lpass") { env.ports.emplace(id, wire<LPass>(w, sid, in.at(0))); }
